@@ -22,6 +22,23 @@ for cf in sorted(glob.glob("/tmp/seedconfirm/C*.json")):
     shutil.rmtree(d, ignore_errors=True)
     os.makedirs(os.path.join(d, "demo"))
     shutil.copy(patch, os.path.join(d, "patch.diff"))
+    rebased = False
+    import subprocess
+    if subprocess.run(["git", "-C", "/repo", "apply", "--check", os.path.join(d, "patch.diff")], capture_output=True).returncode != 0:
+        # later hook / fix commits touched neighbouring lines: store the 3-way applied form
+        wt = "/tmp/verif-seedstore-wt"
+        subprocess.run(["git", "-C", "/repo", "worktree", "remove", "--force", wt], capture_output=True)
+        subprocess.run(["git", "-C", "/repo", "worktree", "add", "-q", "--detach", wt, "HEAD"], check=True)
+        try:
+            r = subprocess.run(["git", "-C", wt, "apply", "-3", "--whitespace=nowarn", os.path.join(d, "patch.diff")], capture_output=True)
+            if r.returncode == 0:
+                diff = subprocess.run(["git", "-C", wt, "diff", "HEAD"], capture_output=True, text=True).stdout
+                open(os.path.join(d, "patch.diff"), "w").write(diff)
+                rebased = True
+            else:
+                print("WARNING: patch of", name, "does not apply to /repo HEAD")
+        finally:
+            subprocess.run(["git", "-C", "/repo", "worktree", "remove", "--force", wt], capture_output=True)
     for f in glob.glob(os.path.join(srcdir, "demo", "*")):
         if os.path.isfile(f):
             shutil.copy(f, os.path.join(d, "demo"))
@@ -48,7 +65,7 @@ for cf in sorted(glob.glob("/tmp/seedconfirm/C*.json")):
         "summary": meta.get("summary"), "why_it_breaks": meta.get("why_it_breaks"),
         "needs_to_manifest": meta.get("needs_to_manifest"), "files_changed": meta.get("files_changed"),
         "demo_files": meta.get("demo_files"), "demo_cmd": c.get("demo_cmd"),
-        "patch_rebased_by_coordinator": "/seedreb/" in patch,
+        "patch_rebased_by_coordinator": "/seedreb/" in patch or rebased,
         "confirmed_in_scratch_worktree": {
             "what_was_run": "seedconfirm.py: scratch worktree of /repo HEAD; demo without the change (must pass), git apply, go build ./..., demo with the change (must fail), go test -count=1 of the touched packages with the change (must pass)",
             "demo_without_change_rc": c["demo_without_change"]["rc"], "build_rc": c["build"]["rc"],
